@@ -488,11 +488,53 @@ func newExecutor() *executor {
 
 // the CharRecipe an op works on: a fresh value, or (obj=<id>) a long-lived one whose public
 // fields the "caller" updates in place before the call.
+// The caller's RequireSets live in ONE array with spare capacity, refilled for every recipe — the
+// way a caller who builds many recipes from a scratch buffer does it (pool[:k] for one recipe,
+// pool[:k+1] for the next). The library may read the slice it is given; it must not write to it,
+// within its length or beyond (an append onto it lands in the caller's array).
+var rsBacking = func() []string {
+	b := make([]string, 64)
+	for i := range b {
+		b[i] = fmt.Sprintf("SPARE-CAPACITY-%d", i)
+	}
+	return b
+}()
+
+func (r recipeSpec) buildPooled() spg.CharRecipe {
+	c := r.build()
+	if r.rs != nil && len(r.rs) <= 48 {
+		for i := range rsBacking {
+			rsBacking[i] = fmt.Sprintf("SPARE-CAPACITY-%d", i)
+		}
+		copy(rsBacking, r.rs)
+		c.RequireSets = rsBacking[:len(r.rs)]
+	}
+	return c
+}
+
+// rsIntact: after the operation the caller's array still holds what the caller put there.
+func rsIntact(spec recipeSpec) string {
+	if spec.rs == nil || len(spec.rs) > 48 {
+		return ""
+	}
+	for i, v := range spec.rs {
+		if rsBacking[i] != v {
+			return " MUTATED=caller-requiresets"
+		}
+	}
+	for i := len(spec.rs); i < len(rsBacking); i++ {
+		if rsBacking[i] != fmt.Sprintf("SPARE-CAPACITY-%d", i) {
+			return " MUTATED=caller-requiresets-beyond-len(an append onto the caller's slice)"
+		}
+	}
+	return ""
+}
+
 func (e *executor) charRecipe(a opArgs, spec recipeSpec) (*spg.CharRecipe, func() string) {
 	id, shared := a["obj"]
-	fresh := spec.build()
+	fresh := spec.buildPooled()
 	if !shared {
-		return &fresh, func() string { return "" }
+		return &fresh, func() string { return rsIntact(spec) }
 	}
 	r, ok := e.chars[id]
 	if !ok {
@@ -517,7 +559,7 @@ func (e *executor) charRecipe(a opArgs, spec recipeSpec) (*spg.CharRecipe, func(
 		if !sameStrings(callerSlice, snapshot) || len(callerSlice) != len(snapshot) {
 			return " MUTATED=caller-slice"
 		}
-		return ""
+		return rsIntact(spec)
 	}
 }
 
@@ -669,6 +711,7 @@ func (e *executor) exec1(line, lean string) string {
 	case "draw":
 		n, _ := strconv.ParseUint(a["n"], 10, 64)
 		opCtx.zeroBound = n == 0
+		defer setCfg(a)() // the bounded draw has no business with the retry budget, whatever it is set to
 		s := readerFor(a)
 		var k uint32
 		ro := withReader(s, func() { k = spg.VerifRandomUint32n(uint32(n)) })
